@@ -846,6 +846,8 @@ func checkSchemaApply(c *Ctx) {
 	checkSetRevisionAll(c, "R13e")
 	c.Rule("R13g", ruleTextFKReenabled, 2)
 	checkFKReenabled(c, "R13g")
+	c.Rule("R13i", ruleTextCommentOpeners, 2)
+	checkCommentOpeners(c, "R13i")
 	c.Rule("R13h", ruleTextViolationIdentity, 1)
 	checkViolationIdentity(c, "R13h")
 	c.Rule("R13f", ruleTextApplyOwner, 1)
